@@ -32,8 +32,14 @@ def main():
             print(d.name, "ERROR", r.stdout[-300:], r.stderr[-300:])
             missed.append(d.name)
             continue
+        # margin: how many generated cases exposed the change (a change found by one or two cases at this seed is a coin flip
+        # at another one: such checks get their generators strengthened, see DESIGN §0.5)
+        import re
+        m = re.search(r"(\d+) disagreements, (\d+) spec failures", " ".join(ck.get("tail", [])))
+        margin = None if not m else max(int(m.group(1)), int(m.group(2)))
+        thin = detected and margin is not None and margin < 3
         print(f"{d.name:14s} {prop} demo={'ok' if demo_ok else 'BAD'} {'DETECTED' if detected else 'MISSED'} "
-              f"exit={ck['exit']} {ck['wall_s']}s {ck['violations'][:1]}", flush=True)
+              f"exit={ck['exit']} {ck['wall_s']}s margin={margin}{' THIN' if thin else ''} {ck['violations'][:1]}", flush=True)
         if not detected:
             missed.append(d.name)
         if update:
@@ -44,7 +50,7 @@ def main():
                 c["how"] = "after strengthening"
             elif detected:
                 c.setdefault("how", "direct")
-            c["last_sweep"] = {"exit": ck["exit"], "violations": ck["violations"][:3]}
+            c["last_sweep"] = {"exit": ck["exit"], "violations": ck["violations"][:3], "failing_cases": margin}
             (d / "meta.json").write_text(json.dumps(meta, indent=1))
     print("missed:", missed)
     return 1 if missed else 0
